@@ -15,7 +15,7 @@
    [option] results: [None] stands for undefined behaviour of the C++
    (unwrap of an empty optional, a write past the resized result, a read past the
    index pack, at(array,0) of an empty range). *)
-From NM Require Import Base Index.
+From NM Require Import Base Index Dtype.
 Local Open Scope Z_scope.
 
 (* ---------- the axis argument ---------- *)
@@ -114,30 +114,38 @@ Definition slice_shape (sl : list (Z * Z)) : list Z := map (fun p => snd p - fst
 Definition slice_index (sl : list (Z * Z)) (k : list Z) : list Z :=
   map (fun p => fst (fst p) + snd p) (combine sl k).
 
+(* Element types.  [E] is the source element type, [R] the RESULT type in which the accumulator lives
+   (reduce.hpp / accumulate.hpp: result_type = the requested dtype when one is given — the op is then
+   instantiated with res_t = dtype and has result_type = res_t — else the source element type).
+   [cast] is static_cast<result_type>(element); [f acc x] is `op(acc, x)` converted back to
+   result_type by the assignment `initial = op(initial, at(array,i))` (a narrowing / wrapping
+   conversion when op's C++ result type is wider than result_type). *)
 Section Reduce.
-Variable A : Type.
-Variable f : A -> A -> A.
+Variables E R : Type.
+Variable cast : E -> R.
+Variable f : R -> E -> R.
 
-Definition flat_slice (a : list Z -> A) (sl : list (Z * Z)) : list A :=
+Definition flat_slice (a : list Z -> E) (sl : list (Z * Z)) : list E :=
   let ss := slice_shape sl in
   map (fun j => a (slice_index sl (ndindex ss j))) (zrange (ndindex_size ss)).
 
-(* reducer_t (view/ufunc/reduce.hpp:173-217):
-     no initial: acc = array[0]; for i = 1..size-1: acc = op(acc, array[i])
-     initial   : acc = init;     for i = 0..size-1: acc = op(acc, array[i]) *)
-Definition reducer (l : list A) (init : option A) : option A :=
+(* reducer_t (view/ufunc/reduce.hpp:173-217), instantiated as operator()<result_type>:
+     no initial: acc = static_cast<result_t>(array[0]); for i = 1..size-1: acc = op(acc, array[i])
+     initial   : acc = static_cast<result_t>(init);     for i = 0..size-1: acc = op(acc, array[i])
+   ([init] below is the already converted initial value) *)
+Definition reducer (l : list E) (init : option R) : option R :=
   match init with
   | Some v => Some (fold_left f l v)
   | None => match l with
             | [] => None
-            | x :: t => Some (fold_left f t x)
+            | x :: t => Some (fold_left f t (cast x))
             end
   end.
 
 (* reduce_t::operator()(indices...) and, for axis=None, the specialisation that flattens the
    whole array whatever the indices are *)
-Definition reduce_at (a : list Z -> A) (s : list Z) (ax : axis_arg) (keepdims : bool)
-           (init : option A) (idx : list Z) : option A :=
+Definition reduce_at (a : list Z -> E) (s : list Z) (ax : axis_arg) (keepdims : bool)
+           (init : option R) (idx : list Z) : option R :=
   match ax with
   | AxNone => reducer (map (fun j => a (ndindex s j)) (zrange (ndindex_size s))) init
   | _ =>
@@ -159,11 +167,34 @@ Fixpoint accumulate_slices (axis : Z) (idx : list Z) (i : Z) : list (Z * Z) :=
   | [] => []
   | v :: t => ((if i =? axis then 0 else v), v + 1) :: accumulate_slices axis t (i + 1)
   end.
-Definition accumulate_at (a : list Z -> A) (ndim axis : Z) (idx : list Z) : option A :=
+Definition accumulate_at (a : list Z -> E) (ndim axis : Z) (idx : list Z) : option R :=
   reducer (flat_slice a (accumulate_slices (wrap_axis axis ndim) idx 0)) None.
 
 End Reduce.
-Arguments flat_slice {A}. Arguments reducer {A}. Arguments reduce_at {A}. Arguments accumulate_at {A}.
+Arguments flat_slice {E}. Arguments reducer {E R}. Arguments reduce_at {E R}. Arguments accumulate_at {E R}.
+
+(* ---------- the result type of the concrete element types ----------
+   result_type = requested dtype, else the source element type (Dtype.reduce_dtype).  Integer values are
+   converted to an integer type by reduction modulo 2^bits (unsigned: [conv.integral]; signed: what gcc /
+   clang do, implementation-defined before C++20); to bool by != 0; to a floating type exactly
+   (valid while |z| < 2^24 resp. 2^53 — the generators stay below). *)
+Definition int_cast (d : dtype) (z : Z) : Z :=
+  match d with
+  | Bool => if z =? 0 then 0 else 1
+  | U8 | U16 | U32 | U64 => wrap (bits d) z
+  | I8 | I16 | I32 | I64 => swrap (bits d) z
+  | F32 | F64 => z
+  end.
+(* one step of reducer_t on integer-valued data: acc = (result_t) op(acc, x) *)
+Definition typed_step (r : dtype) (op : Z -> Z -> Z) (acc x : Z) : Z := int_cast r (op acc x).
+Definition typed_reduce_at (requested : option dtype) (e : dtype) (op : Z -> Z -> Z)
+           (a : list Z -> Z) (s : list Z) (ax : axis_arg) (keepdims : bool) (init : option Z) (idx : list Z) : option Z :=
+  let r := reduce_dtype requested e in
+  reduce_at (int_cast r) (typed_step r op) a s ax keepdims (option_map (int_cast r) init) idx.
+Definition typed_accumulate_at (requested : option dtype) (e : dtype) (op : Z -> Z -> Z)
+           (a : list Z -> Z) (ndim axis : Z) (idx : list Z) : option Z :=
+  let r := reduce_dtype requested e in
+  accumulate_at (int_cast r) (typed_step r op) a ndim axis idx.
 
 (* index::mean_divisor (mean.hpp:70) on the already normalised axis *)
 Definition mean_divisor (s : list Z) (nax : axis_arg) : Z :=
@@ -230,36 +261,50 @@ Fixpoint merge (mask : list bool) (i r : list Z) : list Z :=
   end.
 
 Section Spec.
-Variable A : Type.
-Variable f : A -> A -> A.
+Variables E R : Type.
+Variable cast : E -> R.
+Variable f : R -> E -> R.
 
 (* exactly the source elements whose non-reduced coordinates are [i], reduced coordinates in
    nested-loop (increasing index) order *)
-Definition spec_elems (a : list Z -> A) (mask : list bool) (s i : list Z) : list A :=
+Definition spec_elems (a : list Z -> E) (mask : list bool) (s i : list Z) : list E :=
   map (fun r => a (merge mask i r)) (lex_enum (reduced_extents mask s)).
 
-(* left fold, seeded by the initial value or by the first element *)
-Definition fold_spec (l : list A) (init : option A) : option A :=
+(* left fold in the result type, seeded by the initial value or by the (converted) first element *)
+Definition fold_spec (l : list E) (init : option R) : option R :=
   match init, l with
   | Some v, _ => Some (fold_left f l v)
-  | None, x :: t => Some (fold_left f t x)
+  | None, x :: t => Some (fold_left f t (cast x))
   | None, [] => None
   end.
 
-Definition reduce_spec (a : list Z -> A) (s : list Z) (ax : axis_arg) (keepdims : bool)
-           (init : option A) (idx : list Z) : option A :=
+Definition reduce_spec (a : list Z -> E) (s : list Z) (ax : axis_arg) (keepdims : bool)
+           (init : option R) (idx : list Z) : option R :=
   let mask := red_mask (length s) ax in
   fold_spec (spec_elems a mask s (if keepdims then drop_reduced mask idx else idx)) init.
 
 (* accumulate: running fold along [axis]: element idx folds a[.., 0..idx_axis, ..] *)
 Definition set_at (idx : list Z) (axis : nat) (k : Z) : list Z :=
   firstn axis idx ++ k :: skipn (S axis) idx.
-Definition accumulate_spec (a : list Z -> A) (ndim : Z) (axis : Z) (idx : list Z) : option A :=
+Definition accumulate_spec (a : list Z -> E) (ndim : Z) (axis : Z) (idx : list Z) : option R :=
   let ax := Z.to_nat (np_norm ndim axis) in
   fold_spec (map (fun k => a (set_at idx ax k)) (zrange (nth ax idx 0 + 1))) None.
 
 End Spec.
-Arguments spec_elems {A}. Arguments fold_spec {A}. Arguments reduce_spec {A}. Arguments accumulate_spec {A}.
+Arguments spec_elems {E}. Arguments fold_spec {E R}. Arguments reduce_spec {E R}. Arguments accumulate_spec {E R}.
+
+(* NumPy, integer result types, ring operations (+, *, -): the exact left fold over Z of the designated
+   elements (initial included), converted into the result type once at the end *)
+Definition exact_fold (op : Z -> Z -> Z) (l : list Z) (init : option Z) : option Z :=
+  fold_spec (fun x => x) op l init.
+Definition typed_reduce_spec (requested : option dtype) (e : dtype) (op : Z -> Z -> Z)
+           (a : list Z -> Z) (s : list Z) (ax : axis_arg) (keepdims : bool) (init : option Z) (idx : list Z) : option Z :=
+  let mask := red_mask (length s) ax in
+  option_map (int_cast (reduce_dtype requested e))
+             (exact_fold op (spec_elems a mask s (if keepdims then drop_reduced mask idx else idx)) init).
+Definition typed_accumulate_spec (requested : option dtype) (e : dtype) (op : Z -> Z -> Z)
+           (a : list Z -> Z) (ndim axis : Z) (idx : list Z) : option Z :=
+  option_map (int_cast (reduce_dtype requested e)) (accumulate_spec (fun x => x) op a ndim axis idx).
 
 Definition reduce_shape_spec (s : list Z) (ax : axis_arg) (keepdims : bool) : list Z :=
   np_reduce_shape (red_mask (length s) ax) s keepdims.
